@@ -32,6 +32,24 @@ namespace raptor
     class ParCSRMatrix;
     class ParBSRMatrix;
 
+    // The running tag of a package's halo exchanges advances with every exchange.
+    // It must never take the value of a tag that a wildcard (any-source) phase
+    // uses on the same communicators -- package set-up (tap_comm.cpp, init_par_comm),
+    // repartitioning, the conditional exchanges and the MIS-2 handshake --
+    // otherwise a halo message of a long-lived package is taken for a set-up message
+    // of another package.  (Sorted; no two values are consecutive.)
+    static inline int next_comm_key(int key)
+    {
+        static const int reserved[] = {4321, 5432, 6543, 6789, 7890, 9876, 12345,
+            19432, 23491, 29485, 325493, 453246};
+        key++;
+        for (int i = 0; i < 12; i++)
+        {
+            if (key == reserved[i]) key++;
+        }
+        return key;
+    }
+
     class CommPkg
     {
       public:
@@ -643,7 +661,7 @@ namespace raptor
             send_data->waitall();
             recv_data->waitall();
             if (profile) vec_t += RAPtor_MPI_Wtime();
-            key++;
+            key = next_comm_key(key);
 
             // Extract packed data to appropriate buffer
             std::vector<T>& buf = recv_data->get_buffer<T>();
@@ -796,7 +814,7 @@ namespace raptor
             send_data->waitall();
             recv_data->waitall();
             if (profile) vec_t += RAPtor_MPI_Wtime();
-            key++;
+            key = next_comm_key(key);
         }
 
         // Conditional communication
